@@ -211,4 +211,37 @@ theorem drawCells_in_window {G : Type} (width : G → Int) (hw : ∀ g, 0 ≤ wi
       · exact hP x h
       · exact cellLoop_in_window width hw masked _ winW m.content 0 col hc.1 hc.2 x h
 
+/-! ### A layout of positive-width graphemes never writes one cell over another -/
+
+theorem placed_col_ge {G : Type} (width : G → Int) (hw : ∀ g, 0 ≤ width g) (f : G → Glyph G) :
+    ∀ (l : List G) (c : Int), ∀ x ∈ placed width f l c, c ≤ x.1 := by
+  intro l
+  induction l with
+  | nil => intro c x hx; simp [placed] at hx
+  | cons g gs ih =>
+    intro c x hx
+    simp only [placed, List.mem_cons] at hx
+    rcases hx with rfl | hx
+    · exact Int.le_refl _
+    · have := ih (c + width g) x hx
+      have := hw g
+      omega
+
+/-- With graphemes of positive width the columns of a layout strictly increase: no cell is written
+over another one. -/
+theorem placed_cols_increasing {G : Type} (width : G → Int) (hw : ∀ g, 0 < width g) (f : G → Glyph G) :
+    ∀ (l : List G) (c : Int), ((placed width f l c).map (·.1)).Pairwise (· < ·) := by
+  intro l
+  induction l with
+  | nil => intro c; simp [placed]
+  | cons g gs ih =>
+    intro c
+    simp only [placed, List.map_cons, List.pairwise_cons]
+    refine ⟨?_, ih (c + width g)⟩
+    intro y hy
+    obtain ⟨x, hx, rfl⟩ := List.mem_map.mp hy
+    have := placed_col_ge width (fun g => Int.le_of_lt (hw g)) f gs (c + width g) x hx
+    have := hw g
+    omega
+
 end VaxisModel.Lemmas.TextInput
